@@ -1,2 +1,2 @@
 from . import linejobs, monitors  # noqa
-from . import comp, envworld, rmworld, maintworld, lifeworld, compchecks  # noqa
+from . import comp, envworld, rmworld, maintworld, lifeworld, repro, compchecks  # noqa
